@@ -126,16 +126,19 @@ def check(case, mode):
     return {"nontrivial": nt, "classes": classes, "key": mode + text, "sample": {"mode": mode, "text": text}}
 
 
-@st.composite
-def arity_cases(draw):
-    case = draw(gen.progs(gen.Cfg(max_macros=3, general_numbers=False, usepulses=False, max_depth=3, macro_bias=1)))
+def _arity_case(ch):
+    prog, _b = gen.make_prog(ch, gen.Cfg(max_macros=3, general_numbers=False, usepulses=False, max_depth=3, macro_bias=1))
     return {
-        "prog": case["prog"],
-        "which": draw(st.integers(0, 10)),
-        "delta": draw(st.sampled_from([-1, 1, 2])),
-        "pos": draw(st.integers(0, 20)),
-        "wrap": draw(st.sampled_from(["none", "seq", "par", "loop", "loop0", "sub"])),
+        "prog": prog,
+        "which": ch.int(0, 10),
+        "delta": ch.pick([-1, 1, 2]),
+        "pos": ch.int(0, 20),
+        "wrap": ch.pick(["none", "seq", "par", "loop", "loop0", "sub"]),
     }
+
+
+def arity_cases():
+    return gen.cases(_arity_case)
 
 
 def arity(case):
